@@ -17,6 +17,7 @@ import (
 	"path/filepath"
 	"sort"
 	"strings"
+	"sync"
 	"time"
 
 	"github.com/kelindar/column"
@@ -267,6 +268,49 @@ func cmdTrunc(args []string) {
 				}
 			}
 		}
+		// the change stream after a FAILED restore: the next transaction emits exactly one commit, for
+		// the block it changed (nothing left over from the restore that was abandoned half-way)
+		probed := 0
+		for _, k := range cutPoints(w.rng, len(file), stateLen, false) {
+			if probed >= 6 {
+				break
+			}
+			if k < len(file)/3 {
+				continue
+			}
+			lg := &countLogger{}
+			fresh := column.NewCollection(column.Options{Capacity: w.opts.Capacity, Vacuum: time.Hour, Writer: lg})
+			for _, col := range w.cols {
+				col.Create(fresh)
+			}
+			// restore and the following write run on one goroutine (transactions are pooled per processor)
+			var rerr, ierr error
+			var off uint32
+			var chunks []uint32
+			if !within(20*time.Second, func() {
+				defer func() { recover() }()
+				rerr = fresh.Restore(bytes.NewReader(file[:k]))
+				if rerr == nil {
+					return
+				}
+				lg.reset()
+				off, ierr = fresh.Insert(func(r column.Row) error { return nil })
+				chunks = lg.chunks()
+			}) {
+				continue
+			}
+			if rerr == nil {
+				fresh.Close()
+				continue
+			}
+			probed++
+			if ierr == nil && (len(chunks) != 1 || chunks[0] != off>>14) {
+				s.Failures = append(s.Failures, fmt.Sprintf("[C15] seed %d file %d: after a Restore that failed (cut %d/%d) an insert at offset %d emitted commits for blocks %v, want exactly one for block %d",
+					*seed, i, k, len(file), off, chunks, off>>14))
+			}
+			fresh.Close()
+		}
+		s.Extra["writes_after_failed_restore"] += probed
 		// the complete file must restore to the final state
 		if o := w.tryRestore(file); o.err != nil || !sameDump(o.dump, allowed[len(allowed)-1]) {
 			s.Failures = append(s.Failures, fmt.Sprintf("seed %d file %d: the complete file does not restore to the final state (err=%v)", *seed, i, o.err))
@@ -296,8 +340,9 @@ func (s *persistSummary) bigTrunc(seed uint64) {
 
 func (s *persistSummary) bigTruncLayout(seed uint64, order []string) {
 	rng := NewRng(seed ^ 0xb17)
+	lg := &countLogger{}
 	mk := func() *column.Collection {
-		c := column.NewCollection(column.Options{Vacuum: time.Hour, Capacity: 64})
+		c := column.NewCollection(column.Options{Vacuum: time.Hour, Capacity: 64, Writer: lg})
 		for _, n := range order {
 			if n == "v" {
 				c.CreateColumn(n, column.ForInt64())
@@ -359,6 +404,18 @@ func (s *persistSummary) bigTruncLayout(seed uint64, order []string) {
 				}
 			}()
 			err = d.Restore(bytes.NewReader(data[:k]))
+			if err != nil {
+				// same goroutine, hence the same pooled transaction: the next write's commits
+				lg.reset()
+				const off = 5 // a row of the first block (restored or not): the update changes block 0 only
+				if ierr := d.QueryAt(off, func(r column.Row) error { r.SetInt64("v", 77); return nil }); ierr == nil {
+					if chunks := lg.chunks(); len(chunks) != 1 || chunks[0] != off>>14 {
+						s.Failures = append(s.Failures, fmt.Sprintf("[C15] seed %d big snapshot (columns %v) cut %d/%d: after the failed Restore an update of row %d emitted commits for blocks %v, want exactly one for block %d",
+							seed, order, k, len(data), off, chunks, off>>14))
+					}
+				}
+				s.Extra["writes_after_failed_restore"]++
+			}
 		})
 		s.Cuts++
 		desc := fmt.Sprintf("seed %d big snapshot (columns %v, %d rows in 2 blocks, %d bytes, %d compressed frames) cut %d", seed, order, rows, len(data), len(bounds), k)
@@ -494,15 +551,34 @@ func (s *persistSummary) checkLogPrefixes(w *World, seed uint64, file int, every
 // fault injection (C14)
 
 type faultWriter struct {
-	w         io.Writer
-	failCall  int // fail at this Write call (-1: never)
-	failByte  int // fail once this many bytes were accepted (-1: never)
-	forever   bool
-	calls, n  int
-	failed    int
+	w        io.Writer
+	failCall int // fail at this Write call (-1: never)
+	failByte int // fail once this many bytes were accepted (-1: never)
+	forever  bool
+	calls, n int
+	failed   int
 }
 
 var errDisk = errors.New("injected write failure")
+
+// countLogger records the block of every commit appended to it
+type countLogger struct {
+	mu sync.Mutex
+	cs []uint32
+}
+
+func (l *countLogger) Append(c commit.Commit) error {
+	l.mu.Lock()
+	l.cs = append(l.cs, uint32(c.Chunk))
+	l.mu.Unlock()
+	return nil
+}
+func (l *countLogger) reset() { l.mu.Lock(); l.cs = nil; l.mu.Unlock() }
+func (l *countLogger) chunks() []uint32 {
+	l.mu.Lock()
+	defer l.mu.Unlock()
+	return append([]uint32(nil), l.cs...)
+}
 
 // within runs f and reports whether it returned before the limit (a call that never returns is
 // abandoned together with whatever it holds)
@@ -572,6 +648,7 @@ func bigFault(s *persistSummary, cases *[]string, seed uint64, dense bool) {
 		})
 		return
 	}
+	rounds := 0
 	for _, p := range plans {
 		fw := &faultWriter{w: io.Discard, failCall: p.call, failByte: p.byt, forever: p.forever}
 		var err error
@@ -594,17 +671,34 @@ func bigFault(s *persistSummary, cases *[]string, seed uint64, dense bool) {
 		} else {
 			s.Clean++
 		}
-		// transactions commit normally, in every block
-		if !within(20*time.Second, func() {
-			c.Query(func(txn *column.Txn) error {
-				for _, off := range []uint32{3, 16384 + 5, 32768 + 7} {
-					txn.QueryAt(off, func(r column.Row) error { r.MergeInt64("v", 1); return nil })
+		// transactions commit normally, in every block: several columns per row, several transactions
+		probe := []uint32{3, 16384 + 5, 32768 + 7}
+		for round := 0; round < 3; round++ {
+			round := round
+			rounds++
+			if !within(20*time.Second, func() {
+				c.Query(func(txn *column.Txn) error {
+					for _, off := range probe {
+						txn.QueryAt(off, func(r column.Row) error {
+							r.MergeInt64("v", 1)
+							r.SetString("s", fmt.Sprintf("after-%d-%d", rounds, off))
+							return nil
+						})
+					}
+					return nil
+				})
+			}) {
+				s.Failures = append(s.Failures, desc+": a transaction after the failed snapshot never committed")
+				return
+			}
+			for _, off := range probe {
+				var v int64
+				var str string
+				c.QueryAt(off, func(r column.Row) error { v, _ = r.Int64("v"); str, _ = r.String("s"); return nil })
+				if want := int64(off) + int64(rounds); v != want || str != fmt.Sprintf("after-%d-%d", rounds, off) {
+					s.Failures = append(s.Failures, desc+fmt.Sprintf(": transaction %d after the failed snapshot did not apply what it wrote: row %d holds v=%d s=%q, want v=%d s=%q", round, off, v, str, want, fmt.Sprintf("after-%d-%d", rounds, off)))
 				}
-				return nil
-			})
-		}) {
-			s.Failures = append(s.Failures, desc+": a transaction after the failed snapshot never committed")
-			return
+			}
 		}
 		var good bytes.Buffer
 		var gerr error
